@@ -6,6 +6,7 @@ information the file declares is read back with the tool's own reader and compar
 running model.
 """
 import datetime
+import posixpath
 
 from checks import annot as A
 from rsim import gen as G
@@ -63,6 +64,11 @@ def gen_case(seed, tier, index=0):
         # files of the same type as the target, named in most invocations: what one of them already declares (a
         # contributor the others lack) must survive whichever of them the tool works on first
         extras = [f"zz/twin{k}{G.STYLES[style][7]}" for k in range(rng.randint(1, 3))]
+    if rng.chance(0.12):
+        # one file of the invocation cannot be annotated (not UTF-8): the run must say so in its exit status, and the
+        # others are judged as usual
+        extras = list(extras) + ["zz/latin1.py"]
+    from_sub = rng.chance(0.15)  # the whole history is typed from a sub-directory, with --root ..
     bystanders = []
     if rng.chance(0.3):
         # files that are never named, whose names extend the target's (editor back-ups, left-overs): whatever the
@@ -136,14 +142,22 @@ def gen_case(seed, tier, index=0):
             faults = [rng.pick([{"op": "write", "path": tgt, "errno": "ENOSPC", "after": rng.pick([0, 10, 60])},
                                 {"op": "write", "path": tgt, "errno": "EIO", "after": 0},
                                 {"op": "open-w", "path": tgt, "errno": rng.pick(["EACCES", "EROFS", "ENOSPC"])}])]
-        steps.append({"argv": ["--no-multiprocessing"] + A.argv_of(opts, named), "clock": t.isoformat(timespec="seconds"),
+        spelled = {n2: n2 for n2 in named}
+        step_extra = {}
+        if from_sub:
+            spelled = {n2: posixpath.relpath(n2, "zz") for n2 in named}
+            step_extra = {"cwd": "zz"}
+        steps.append({"argv": (["--root", ".."] if from_sub else []) + ["--no-multiprocessing"] + A.argv_of(opts, [spelled[n2] for n2 in named]),
+                      "clock": t.isoformat(timespec="seconds"), "spelled": spelled, **step_extra,
                       "opts": opts, "named": named, "faults": faults,
                       "observe": [{"kind": "reuse_info", "path": p} for n in [name] + extras + bystanders for p in (n, n + ".license")]})
         t += datetime.timedelta(seconds=rng.pick([1, 30, 3600, 86400 * 20, 86400 * 200, 86400 * 400, 86400 * 800]))
     files = [{"path": name, "content": content}] + A.template_files(sorted(tnames))
     for e in extras:
         files.append({"path": e, "content": {"zz/data.json": "{}\n", "zz/other.py": "import sys\n", "zz/logo.png": G.BINARY,
-                                             "zz/notes.txt": "notes\n"}.get(e, A.body(style, "code"))})
+                                             "zz/notes.txt": "notes\n", "zz/latin1.py": "# caf\udce9 au lait\nx = 1\n"}.get(e, A.body(style, "code"))})
+    if from_sub and not any(f["path"].startswith("zz/") for f in files):
+        files.append({"path": "zz/keep.txt", "content": "keeps the directory\n"})
     for b in bystanders:
         files.append({"path": b, "content": "# SPDX-FileCopyrightText: 2012 Bystander <by@example.org>\n# SPDX-License-Identifier: 0BSD\nkept = 1\n"})
     steps = [{"argv": ["--version"], "observe": [{"kind": "reuse_info", "path": p} for n in [name] + extras + bystanders for p in (n, n + ".license")]}] + steps
@@ -220,12 +234,17 @@ def oracle(case, results):
         renders_contrib = tmpl is None or A.TEMPLATES[tmpl][2]
         tclass = f"template-{tmpl}" if tmpl in ("nolicence", "nocopyright", "nothing") else "x"
         out = rec.get("stdout", "")
+        wfault_any = any(f.split(":")[0] in ("write", "open-w", "open-r") for f in rec.get("fired", []))
         for n in names:
             obs = now.get(n)
             if obs is None:
                 continue
             # per file: did this step annotate it successfully?
-            ok_line = any(l.startswith("Successfully changed header of") and (l.rstrip().endswith(n) or l.rstrip().endswith(n + ".license")) for l in out.splitlines())
+            sp = (st.get("spelled") or {}).get(n, n)
+            ok_line = any(l.startswith("Successfully changed header of") and l.rstrip().endswith((n, n + ".license", sp, sp + ".license")) for l in out.splitlines())
+            if n in named and not ok_line and code == 0 and not wfault_any and not opts.get("skip_existing") and not opts.get("skip_unrecognised"):
+                # the run reports success and this named file was not annotated (nor skipped on request)
+                vs.append({"sig": "C09/named-file-not-annotated-although-exit-0", "detail": f"step {k} argv={st['argv']} cwd={st.get('cwd', '.')}: nothing was done for {n}; stdout={out[-300:]}"})
             wfault = [f for f in rec.get("fired", []) if f.split("|")[0].split(":")[0] in ("write", "open-w") and "|" in f
                       and f.split("|", 1)[1] in (n, n + ".license")]
             if wfault:
